@@ -242,6 +242,10 @@ def hints(ctx, cfg, fs):
                     if r.kind == 'agg' and r.what == 'error::Error::Error':
                         for q in provenance(b, r.extra['fields'][0], r.site[0], r.site[1], through=None):
                             if q.kind == 'call' and q.call.is_(r'map_err'): inner = True
+                            # the same wrapping spelled as a match: Message::ParseFailure(<Err payload of run_subparser>)
+                            if q.kind == 'agg' and q.what == 'error::Message::ParseFailure' and \
+                                    any(y.kind == 'call' and y.call.is_(r'run_subparser$') and y.path == ['as Err', '0'] for y in provenance(b, q.extra['fields'][0], q.site[0], q.site[1], through=None)):
+                                inner = True
                 if inner: continue
             msgs = {st['rv']['variant'] for x in b.reachable(0) for st in b.blocks[x]['stmts'] if st['k'] == 'assign' and st['rv']['k'] == 'agg' and st['rv'].get('adt') == 'error::Message' and b.dominates(x, e)}
             if msgs == {'NonStrictPos'}:
